@@ -450,6 +450,18 @@ class Report:
         if extra:
             cov.update(jsonable(extra))
         cov.update(jsonable(self.coverage))
+        # keys the evidence schema types as integers must be integers (details go beside them)
+        for key in ("states", "transitions", "traces_validated_against_impl", "obligations", "discharged",
+                    "programs", "disagreements_checked", "evaluations", "distinct_nontrivial"):
+            v = cov.get(key)
+            if v is not None and not (isinstance(v, int) and not isinstance(v, bool)):
+                cov[key + "_detail"] = v
+                try:
+                    cov[key] = int(sum(v.values())) if isinstance(v, dict) else int(v)
+                except Exception:
+                    cov[key] = 0
+        if not isinstance(cov.get("samples"), list) or not cov["samples"]:
+            cov["samples"] = ["(none generated)"]
         ev = {
             "property_id": self.prop,
             "tier": self.tier,
